@@ -66,7 +66,7 @@ Proof.
   - (* EClosed *)
     subst e. destruct HR as (R1 & R2 & R3 & R4 & R5 & R6).
     unfold step_cleanup, guard in Hc. destruct (lp s) eqn:Elp; try discriminate Hc; bm Hc; inv_some Hc.
-    + apply andb_true_iff in Heqb as [Hst Hph]. apply negb_true_iff in Hph.
+    + match goal with Hx : _ && negb _ = true |- _ => apply andb_true_iff in Hx as [Hst Hph] end. apply negb_true_iff in Hph.
       unfold conn_open in R1. rewrite Elp in R1. cbn [lc_step]. rewrite R1.
       destruct (lc_setup t) eqn:Es; [specialize (R3 eq_refl); congruence|]. cbn [andb].
       eexists; split; [reflexivity|]. unfold lc_R, conn_open. sf. cbn [lc_open lc_auth lc_setup lc_terms].
@@ -131,6 +131,45 @@ Qed.
 Theorem c14_lifecycle_holds : forall es s, bc_run es = Some s -> c14_lifecycle es = true.
 Proof.
   apply (scan_sound lc_step lc_R lc_step_ok).
+  unfold lc_R, conn_open, bc_init. sf. cbn [lc_open lc_auth lc_setup lc_terms phase_geq_connected].
+  repeat split; auto; discriminate.
+Qed.
+
+(* A slightly stricter life-cycle scanner: in lc_step the patterns for a successful
+   EAuth / ESetup come before the "nothing after Closed" line and therefore are not
+   subject to it.  The variant below also refuses them once the connection is closed;
+   every accepted trace satisfies it as well. *)
+Definition lc_step_strict (t : lc_st) (e : event) : option lc_st :=
+  match e with
+  | EAuth _ AOk | ESetup _ (SOk _ _ _ _ _) => if lc_open t then lc_step t e else None
+  | _ => lc_step t e
+  end.
+Definition c14_lifecycle_strict (es : list event) : bool := scan lc_step_strict (LcSt false false false 0) es.
+
+Lemma step_needs_open s e s' :
+  step s e = Some s' -> clo_event e = false -> e <> ENewConn -> conn_open s = true.
+Proof.
+  intros H Hc Hn. destruct (conn_open s) eqn:Eo; [reflexivity|exfalso].
+  destruct (step_cases _ _ _ H) as
+    [He Hlp Hs|He Ho Hs|He Hq Hs|Hx|He Hx|g s1 Ho|g s1 Ho|g s1 Ho|g s1 Ho|g He Ho]; try congruence.
+  - unfold quiescent in Hq. rewrite Eo in Hq. discriminate Hq.
+  - rewrite (step_clo_event _ _ _ Hx) in Hc. discriminate Hc.
+  - unfold step_cleanup in Hx. rewrite (conn_open_false _ Eo) in Hx. subst e. discriminate Hx.
+Qed.
+
+Lemma lc_strict_step_ok s t e s' :
+  lc_R s t -> step s e = Some s' -> exists t', lc_step_strict t e = Some t' /\ lc_R s' t'.
+Proof.
+  intros HR H. destruct (lc_step_ok s t e s' HR H) as (t' & Ht & HR').
+  exists t'. split; [|exact HR']. destruct HR as (R1 & _).
+  destruct e; try exact Ht; cbn [lc_step_strict].
+  - destruct r; try exact Ht. rewrite R1, (step_needs_open _ _ _ H); [exact Ht|reflexivity|discriminate].
+  - destruct r; try exact Ht. rewrite R1, (step_needs_open _ _ _ H); [exact Ht|reflexivity|discriminate].
+Qed.
+
+Theorem c14_lifecycle_strict_holds : forall es s, bc_run es = Some s -> c14_lifecycle_strict es = true.
+Proof.
+  apply (scan_sound lc_step_strict lc_R lc_strict_step_ok).
   unfold lc_R, conn_open, bc_init. sf. cbn [lc_open lc_auth lc_setup lc_terms phase_geq_connected].
   repeat split; auto; discriminate.
 Qed.
@@ -314,27 +353,25 @@ Proof.
     destruct (pp s1) eqn:Epp; destruct e; try discriminate Hp; bm Hp; inv_some Hp; inv_helpers; inv_tdia.
     all: try (exists t; split; [reflexivity|]; unfold ro_R, out in R1, R2, R3, R4 |- *; sf;
               repeat split; try assumption; intros xps Hxps; discriminate Hxps).
-    + (* Setup with a fresh session *)
-      exists []. split; [reflexivity|]. unfold ro_R, out; sf. cbn [session_new s_out keys map].
-      split; [reflexivity|split; [constructor|split; [intros ? ? []|intros xps Hxps; discriminate Hxps]]].
-    + (* All: nothing stored *)
-      exists t. apply (ro_R_all s1); [exact HR1|apply (list_eqb_eq _ packet_eqb_eq); assumption|reflexivity|].
-      right. intros qs; sf; discriminate.
-    + exists t. apply (ro_R_all s1); [exact HR1|apply (list_eqb_eq _ packet_eqb_eq); assumption|reflexivity|].
-      left. reflexivity.
-    + (* re-send *)
-      exists t. split; [reflexivity|]. eapply (ro_R_resave s1); [exact HR1|exact Epp|reflexivity|].
-      right. intros qs; sf; discriminate.
-    + exists t. split; [reflexivity|]. eapply (ro_R_resave s1); [exact HR1|exact Epp|reflexivity|].
-      left. reflexivity.
-    + exists t. split; [reflexivity|]. eapply (ro_R_resave s1); [exact HR1|exact Epp|reflexivity|].
-      right. intros qs; sf; discriminate.
-    + (* delete on PUBACK / PUBCOMP *)
-      apply N.eqb_eq in Heqb. rewrite <- Heqb. eexists. split; [reflexivity|].
-      apply (ro_R_delete s1); [exact HR1|reflexivity|intros qs; sf; discriminate].
-    + (* PUBREL replaces PUBLISH *)
-      apply N.eqb_eq in Heqb. rewrite <- Heqb. eexists. split; [reflexivity|].
-      apply (ro_R_save s1 t (Pubrel _)); [exact HR1|reflexivity|right; intros qs; sf; discriminate].
+    all: first
+      [ (* Setup with a fresh session object *)
+        exists []; split; [reflexivity|]; unfold ro_R, out; sf; cbn [session_new s_out keys map];
+        (split; [reflexivity|split; [constructor|split; [intros ? ? []|intros xps Hxps; discriminate Hxps]]])
+      | (* All: what is listed is the store, in first-save order *)
+        exists t; apply (ro_R_all s1);
+        [exact HR1|apply (list_eqb_eq _ packet_eqb_eq); assumption|reflexivity
+        |first [left; reflexivity|right; intros qs; sf; discriminate]]
+      | (* re-send: the stored packet is replaced in place *)
+        exists t; split; [reflexivity|]; eapply (ro_R_resave s1);
+        [exact HR1|exact Epp|reflexivity|first [left; reflexivity|right; intros qs; sf; discriminate]]
+      | (* delete on PUBACK / PUBCOMP *)
+        match goal with Hx : (_ =? _) = true |- _ => apply N.eqb_eq in Hx; rewrite <- Hx end;
+        eexists; split; [reflexivity|];
+        apply (ro_R_delete s1); [exact HR1|reflexivity|intros qs; sf; discriminate]
+      | (* PUBREL replaces PUBLISH on PUBREC *)
+        match goal with Hx : (_ =? _) = true |- _ => apply N.eqb_eq in Hx; rewrite <- Hx end;
+        eexists; split; [reflexivity|];
+        apply (ro_R_save s1 t (Pubrel _)); [exact HR1|reflexivity|right; intros qs; sf; discriminate] ].
   - (* dequeuer *)
     assert (HR1 : ro_R s1 t).
     { destruct Hv as [[-> _]|(_ & _ & ->)]; [exact HR|]. apply (ro_R_frame s _ t); [reflexivity|left; reflexivity|exact HR]. }
@@ -347,7 +384,7 @@ Proof.
               try match goal with |- context [if ?b then _ else _] => destruct b end;
               apply (ro_R_frame s1 _ t); [reflexivity|left; reflexivity|exact HR1]).
     (* Save of the dequeued message *)
-    all: apply packet_eqb_eq in Heqb; rewrite <- Heqb;
+    all: match goal with Hx : packet_eqb _ _ = true |- _ => apply packet_eqb_eq in Hx; rewrite <- Hx end;
       exists (match get_id p with Some id => if nmem id t then t else t ++ [id] | None => t end);
       (split; [cbn [ro_step]; destruct (get_id p); reflexivity|]);
       apply (ro_R_save s1 t); [exact HR1|reflexivity|left; reflexivity].
@@ -449,7 +486,7 @@ Proof.
   destruct (pp s) eqn:Epp; destruct e; try discriminate H; bm H; inv_some H; inv_helpers; inv_tdia; sf.
   all: try (split; [reflexivity|split; [reflexivity|left; split; [reflexivity|cbn [dq_early]; auto]]]; fail).
   all: try (split; [reflexivity|split; [reflexivity|right; repeat split; reflexivity]]; fail).
-  all: apply packet_eqb_eq in Heqb0; rewrite Heqb0;
+  all: match goal with Hx : packet_eqb _ _ = true |- _ => apply packet_eqb_eq in Hx; rewrite Hx end;
        (split; [apply set_dup_neutral|split; [reflexivity|left; split; [reflexivity|cbn [dq_early]; auto]]]).
 Qed.
 
@@ -613,7 +650,7 @@ Proof.
               split; [apply entries_aput; assumption|]; rewrite ?Hgp, ?aget_aput, ?N.eqb_refl; cbn [io_ok]; auto;
               repeat match goal with Hx : (_ =? _) = true |- _ => apply N.eqb_eq in Hx end; eauto; fail).
     (* the backend Publish is issued *)
-    all: apply message_eqb_eq in Heqb; rewrite <- Heqb.
+    all: match goal with Hx : message_eqb _ _ = true |- _ => apply message_eqb_eq in Hx; rewrite <- Hx end.
     all: try destruct R2 as (xd & xid & R2 & Rq).
     all: (eexists; split; [cbn [io_step]; rewrite R2; cbn beta iota; rewrite ?Rq, ?message_eqb_refl; reflexivity|]).
     all: unfold io_R, io_v; sf; (split; [apply entries_aput; assumption|exact I]).
@@ -744,20 +781,23 @@ Proof.
               split; [intros Hx; exfalso; apply Hx; exact Hl
                      |split; [intros Hx; rewrite Hx in Hgp; discriminate Hgp|]];
               intros g'; rewrite aget_adel; destruct (g' =? g); [reflexivity|apply R3]; fail).
-    + (* QoS 1 publish: no release pending *)
-      exists t. split; [cbn [ri_step]; rewrite R3; reflexivity|]. unfold ri_R, ri_exp; sf.
-      split; [intros Hx; exfalso; apply Hx; exact Hl|split; [intros Hx; rewrite Hx in Hgp; discriminate Hgp|exact R3]].
-    + (* the stored PUBLISH is found *)
-      exists (aput t g m). split; [reflexivity|]. unfold ri_R, ri_exp; sf.
-      split; [intros Hx; exfalso; apply Hx; exact Hl|split; [intros Hx; rewrite Hx in Hgp; discriminate Hgp|]].
-      intros g'. rewrite aget_aput, Hgp. cbn [is_role]. destruct (g' =? g); [reflexivity|apply R3].
-    + (* the release: exactly the stored message is handed on *)
-      apply message_eqb_eq in Heqb. rewrite <- Heqb.
-      exists (adel t g). split; [cbn [ri_step]; rewrite R3, is_role_some, message_eqb_refl; reflexivity|].
-      unfold ri_R, ri_exp; sf.
-      split; [intros Hx; exfalso; apply Hx; exact Hl|split; [intros Hx; rewrite Hx in Hgp; discriminate Hgp|]].
-      intros g'. rewrite aget_adel. destruct (N.eqb_spec g' g) as [->|Hne]; [reflexivity|].
-      rewrite R3. cbn [is_role]. destruct (N.eqb_spec g' g); [contradiction|reflexivity].
+    all: first
+      [ (* QoS 1 publish: no release pending *)
+        exists t; split; [cbn [ri_step]; rewrite R3; reflexivity|]; unfold ri_R, ri_exp; sf;
+        (split; [intros Hx; exfalso; apply Hx; exact Hl|split; [intros Hx; rewrite Hx in Hgp; discriminate Hgp|exact R3]])
+      | (* the stored PUBLISH is found *)
+        match goal with |- context [PRelPub _ ?m] =>
+          exists (aput t g m); split; [reflexivity|]; unfold ri_R, ri_exp; sf;
+          (split; [intros Hx; exfalso; apply Hx; exact Hl|split; [intros Hx; rewrite Hx in Hgp; discriminate Hgp|]]);
+          intros g'; rewrite aget_aput, Hgp; cbn [is_role]; destruct (g' =? g); [reflexivity|apply R3]
+        end
+      | (* the release: exactly the stored message is handed on *)
+        match goal with Hx : message_eqb _ _ = true |- _ => apply message_eqb_eq in Hx; rewrite <- Hx end;
+        exists (adel t g); (split; [cbn [ri_step]; rewrite R3, is_role_some, message_eqb_refl; reflexivity|]);
+        unfold ri_R, ri_exp; sf;
+        (split; [intros Hx; exfalso; apply Hx; exact Hl|split; [intros Hx; rewrite Hx in Hgp; discriminate Hgp|]]);
+        intros g'; rewrite aget_adel; destruct (N.eqb_spec g' g) as [->|Hne]; [reflexivity|];
+        rewrite R3; cbn [is_role]; destruct (N.eqb_spec g' g); [contradiction|reflexivity] ].
   - (* dequeuer *)
     assert (HR1 : ri_R s1 t).
     { destruct Hv as [[-> _]|(_ & _ & ->)]; [exact HR|]. apply ri_R_roles; exact HR. }
